@@ -21,8 +21,7 @@ def run_on_patch(patch, props, keep=False, repo="/repo"):
     fcntl.flock(lock, fcntl.LOCK_EX)
     try:
         os.makedirs(SCRATCH, exist_ok=True)
-        subprocess.check_call(["rsync", "-a", "--delete", "--exclude", "target", "--exclude", ".git", "--exclude", "vscode",
-                               "--exclude", "docs", repo + "/", SCRATCH + "/"])
+        subprocess.check_call(["rsync", "-a", "--delete", "--exclude", "target", "--exclude", ".git", "--exclude", "vscode", repo + "/", SCRATCH + "/"])
         r = subprocess.run(["patch", "-p1", "--no-backup-if-mismatch", "-d", SCRATCH, "-i", os.path.abspath(patch)],
                            stdout=subprocess.PIPE, stderr=subprocess.STDOUT, text=True)
         if r.returncode != 0:
@@ -74,13 +73,18 @@ if __name__ == "__main__":
 
         def one(n):
             return n, run_on_patch(os.path.join(mdir, n + ".diff"), [prop])
-        todo = [n for n in names if (not only and (n not in old or not old[n].get("keys"))) or n in only]
+        todo = [n for n in names if (not only and (n not in old or (not old[n].get("keys") and not n.startswith("ok-")))) or n in only]
         with concurrent.futures.ThreadPoolExecutor(max_workers=4) as ex:
             for n, res in ex.map(one, todo):
                 if "_error" in res:
                     print("!!", n, res["_error"][:300]); continue
                 new = sorted({f["key"] for f in res[prop]} - base)
                 what = (old.get(n) or {}).get("what", "")
+                if n.startswith("ok-"):
+                    # behaviour-preserving variant: the expectation is silence and is never recorded from a run
+                    old[n] = {"keys": [], "what": what}
+                    print(("SILENT" if not new else "FALSE ALARM"), n, new)
+                    continue
                 old[n] = {"keys": new, "what": what}
                 print(("OK  " if new else "MISS"), n, new)
         json.dump(old, open(exp_path, "w"), indent=1, sort_keys=True)
